@@ -25,30 +25,30 @@ retain_grads__ = False
 class no_grad:
     
     def __init__(self) -> None:
-        self.prev = gradient__
+        self.prev = [] # one saved mode per entry, so that the same object can be nested in itself
     
     def __enter__(self):
         global gradient__
-        self.prev = gradient__ # restore what was in force when the context was entered, not constructed
+        self.prev.append(gradient__) # restore what was in force when the context was entered, not constructed
         gradient__ = False
         
     def __exit__(self, exc_type, exc_val, exc_tb):
         global gradient__
-        gradient__ = self.prev
+        gradient__ = self.prev.pop()
         
 
 class retain_grads:
     def __init__(self) -> None:
-        self.prev = retain_grads__
+        self.prev = [] # one saved mode per entry, so that the same object can be nested in itself
     
     def __enter__(self):
         global retain_grads__
-        self.prev = retain_grads__ # restore what was in force when the context was entered, not constructed
+        self.prev.append(retain_grads__) # restore what was in force when the context was entered, not constructed
         retain_grads__ = True
         
     def __exit__(self, exc_type, exc_val, exc_tb):
         global retain_grads__
-        retain_grads__ = self.prev
+        retain_grads__ = self.prev.pop()
     
 
 # ****************************
